@@ -32,6 +32,7 @@ type c12case struct {
 	Batch    bool   `json:"batch_of_non_terminating,omitempty"`
 	NArgs    int    `json:"n_args"`           // 0, 2 or 4 free-form arguments
 	Extra    string `json:"extra_flags"`      // "", "LattrsR", "Lcaller"
+	LevelVia string `json:"level_via,omitempty"` // "" SetLevel on the logger | "option" the logger is created with New(name, WithLevel(L)) and never given SetLevel
 	Repeat   int    `json:"repeat,omitempty"` // Panic only: the call is issued this many times in the same process (each panic recovered); the LAST outcome is reported
 	FlagPath string `json:"flag_path"`        // "" = SetFlags; "scope" = the flags were toggled inside a SaveFlagsAndMod scope that has ended
 }
@@ -272,7 +273,9 @@ func c12setup(cas c12case, recFile string) (slog.Logger, *os.File) {
 			// a second destination of each class fails every Write: the call still terminates, the healthy one has the record
 			l.AddWriter(c12failW{}).AddErrorWriter(c12failW{})
 		}
-		l.SetLevel(slog.Level(cas.Level)) // (Debug/Trace switch the process-wide modes on - deliberately left on)
+		if !(cas.LevelVia == "option" && l != slog.Default()) {
+			l.SetLevel(slog.Level(cas.Level)) // (Debug/Trace switch the process-wide modes on - deliberately left on)
+		}
 		switch cas.Format {
 		case "json":
 			l.SetJSONMode(true)
@@ -284,6 +287,9 @@ func c12setup(cas c12case, recFile string) (slog.Logger, *os.File) {
 		return l
 	}
 	mk(slog.Default())
+	if cas.LevelVia == "option" {
+		return mk(slog.New("c12", slog.WithLevel(slog.Level(cas.Level)))), f
+	}
 	return mk(slog.New("c12")), f
 }
 
@@ -421,7 +427,7 @@ func c12eval(cas c12case, scratch string) (*Violation, string) {
 		return nil, "child infrastructure problem: " + firstLine(stdout)
 	}
 	mk := func(clause, detail string) *Violation {
-		sig := fmt.Sprintf("C12|%s|entry=%s|severity=%s|noint=%v|always=%v|testmode=%v|level=%s|%s|args=%d|extra=%s|flags-via=%s|repeat=%d", clause, cas.Entry, levelName(slog.Level(cas.Sev)), cas.NoInt, cas.IntAlw, cas.TestMode, levelName(slog.Level(cas.Level)), cas.Format, cas.NArgs, cas.Extra, cas.FlagPath, cas.Repeat)
+		sig := fmt.Sprintf("C12|%s|entry=%s|severity=%s|noint=%v|always=%v|testmode=%v|level=%s|%s|args=%d|extra=%s|flags-via=%s|repeat=%d|level-via=%s", clause, cas.Entry, levelName(slog.Level(cas.Sev)), cas.NoInt, cas.IntAlw, cas.TestMode, levelName(slog.Level(cas.Level)), cas.Format, cas.NArgs, cas.Extra, cas.FlagPath, cas.Repeat, cas.LevelVia)
 		return mkViolation(sig, clause, detail+fmt.Sprintf(" [child stdout %.200q, exit status %d, record file %.200q]", stdout, exit, record), cas)
 	}
 	L := slog.Level(cas.Level)
@@ -561,6 +567,9 @@ func c12run(c *Ctx) {
 									cas := c12case{Entry: e.name, Sev: int(sev), NoInt: noint, IntAlw: alw, TestMode: tm, Level: int(L), Format: f, NArgs: vr[0].(int), Extra: vr[1].(string), FlagPath: vr[2].(string)}
 									if sev == slog.PanicLevel && (c.Thorough() && vi%2 == 0 || !c.Thorough() && vi == 0) {
 										cas.Repeat = 3
+									}
+									if (n+vi)%2 == 1 {
+										cas.LevelVia = "option"
 									}
 									c.Count("evaluations", 1)
 									v, problem := c12eval(cas, scratch)
